@@ -170,7 +170,7 @@ package xsync
 //@ purefn hasher
 //@ define tabOf(m) = as(m.table, "*mapOfTable")
 //@ define tblShapeOf(t) = t != nil && wfslice(t.buckets) && pow2(len(t.buckets)) && wfslice(t.size) && pow2(len(t.size))
-//@ define markOK(w) = (w & 18446743521853636735) == 0
+//@ define markOK(w) = (w & 18446743521797832575) == 0
 
 //@ func (*MapOf[K, V]).resizeInProgress
 //@   serves C13 C14
@@ -251,6 +251,25 @@ package xsync
 //@   ensures {C05} valueFn.atmostonce: ncb(valueFn) <= 1
 //@   ensures {C05} valueFn.once-unless-loaded: ncb(valueFn) == 1 || loadIfExists
 //@   ensures {C16} fastpath.nolock: loadIfExists && ncall("Load") == 1 && lastret("Load", 1) ==> nacquire() == 0 && nblocking() == 0
+
+// ---- MapOf representation invariant (same ghost chain structure; 5 entries per bucket; SWAR meta word) ----
+//@ ghost tviewOf : [Addr][K]opt[V]
+//@ ghost slotbOf : [Addr][K]Addr
+//@ ghost slotiOf : [Addr][K]int
+//@ define hashOf(m, t, k) = apply(m.hasher, k, t.seed)
+//@ define idxOfO(m, t, k) = u64(len(t.buckets) - 1) & h1(hashOf(m, t, k))
+//@ define rootO(t, j) = addr(t.buckets[j])
+//@ define rootOfO(t, b) = rootO(t, ridx[b])
+//@ define entAt(b, i) = as(b.entries[i], "*entryOf")
+//@ define mbyte(w, i) = (w >> (u64(i) * 8)) & 255
+//@ define mbit(w, i) = ((w >> (u64(i) * 8 + 7)) & 1) == 1
+//@ define chainsO(t) = forall b: *bucketOfPadded :: own(t, b) ==> b != nil && ridx[b] < u64(len(t.buckets)) && own(t, rootOfO(t, b)) && 0 <= pos[b] && pos[b] < clen[rootOfO(t, b)] && ((pos[b] == 0) == (b == rootOfO(t, b))) && (b.next != nil ==> own(t, b.next) && ridx[b.next] == ridx[b] && pos[b.next] == pos[b] + 1) && (b.next == nil ==> pos[b] == clen[rootOfO(t, b)] - 1)
+//@ define rootsO(t) = forall j: uint64 :: j < u64(len(t.buckets)) ==> own(t, rootO(t, j)) && ridx[rootO(t, j)] == j && pos[rootO(t, j)] == 0
+//@ define chainsInjO(t) = forall b1: *bucketOfPadded, b2: *bucketOfPadded :: own(t, b1) && own(t, b2) && ridx[b1] == ridx[b2] && pos[b1] == pos[b2] ==> b1 == b2
+//@ define slotsO(m, t) = forall b: *bucketOfPadded, i: int :: own(t, b) && 0 <= i && i < 5 ==> ((b.entries[i] == nil) == (mbyte(b.meta, i) == 128)) && (b.entries[i] != nil ==> mbyte(b.meta, i) == u64(h2(hashOf(m, t, entAt(b, i).key))) && idxOfO(m, t, entAt(b, i).key) == ridx[b] && tviewOf[t][entAt(b, i).key] == some(entAt(b, i).value) && slotbOf[t][entAt(b, i).key] == b && slotiOf[t][entAt(b, i).key] == i)
+//@ define viewSlotsO(t) = forall k: K :: present(tviewOf[t][k]) ==> own(t, slotbOf[t][k]) && 0 <= slotiOf[t][k] && slotiOf[t][k] < 5 && as(slotbOf[t][k], "*bucketOfPadded").entries[slotiOf[t][k]] != nil && entAt(as(slotbOf[t][k], "*bucketOfPadded"), slotiOf[t][k]).key == k
+//@ define tableInvO(m, t) = tblShapeOf(t) && chainsO(t) && rootsO(t) && chainsInjO(t) && slotsO(m, t) && viewSlotsO(t)
+//@ define mapOfRI(m) = m != nil && m.hasher != nil && tableInvO(m, tabOf(m)) && view(m) == tviewOf[tabOf(m)]
 
 //@ func newMapTable
 //@   serves C13 C14
@@ -351,11 +370,18 @@ package xsync
 
 //@ -- twin-begin MapOf
 //@ func (*MapOf[K, V]).Load
-//@   trusted interface contract (builtin-map semantics); discharged by the table-layer proofs when those are enabled
-//@   requires m != nil && mapInv(m)
+//@   serves C13 C14
+//@   requires mapInv(m)
+//@   requires private mapOfRI(m)
 //@   let o = old(view(m))[key]
-//@   ensures {C11,C03} post.ok: ok == present(o)
-//@   ensures {C11,C03} post.value: value == valOr0(o)
+//@   loop for.body: invariant {C11,C04,C10} walk: own(tabOf(m), b) && ridx[b] == idxOfO(m, tabOf(m), key) && (present(o) ==> pos[slotbOf[tabOf(m)][key]] >= pos[b])
+//@   loop for.body: decreases clen[rootOfO(tabOf(m), b)] - pos[b]
+//@   loop for.loop: invariant {C11,C04,C10} scanned: (markedw & 18446743521797832575) == 0 && (markedw & ^(markZeroBytes(metaw ^ h2w) & 1099511627775)) == 0 && (forall j: int :: 0 <= j && j < 5 && mbit(markZeroBytes(metaw ^ h2w), j) && !mbit(markedw, j) ==> !(b.entries[j] != nil && entAt(b, j).key == key))
+//@   loop for.loop: invariant outer: own(tabOf(m), b) && ridx[b] == idxOfO(m, tabOf(m), key) && (present(o) ==> pos[slotbOf[tabOf(m)][key]] >= pos[b]) && metaw == b.meta && h2w == broadcast(h2(hashOf(m, tabOf(m), key)))
+//@   loop for.loop: decreases markedw
+//@   ensures {C11,C04,C10} post.ok: ok == present(o)
+//@   ensures {C11,C04,C10} post.value: value == valOr0(o)
+//@   ensures {C16} effect.nolock: nacquire() == 0 && nblocking() == 0
 
 //@ func (*MapOf[K, V]).Store
 //@   trusted interface contract (builtin-map semantics); discharged by the table-layer proofs when those are enabled
